@@ -315,14 +315,11 @@ Hopen(const char *path, int acc_mode, int16 ndds)
             file_rec->file = (hdf_file_t)HI_OPEN(file_rec->path, acc_mode);
             if (OPENERR(file_rec->file)) {
                 if (acc_mode & DFACC_WRITE) {
-                    /* Seems like the file is not there, try to create it -- but only if it really
-                       is not there: creating it would empty a file that exists and merely could not
-                       be opened for writing this time. */
-                    hdf_file_t probe = (hdf_file_t)HI_OPEN(file_rec->path, DFACC_READ);
-                    if (!OPENERR(probe)) {
-                        HI_CLOSE(probe);
+                    /* Seems like the file is not there, try to create it -- but only if the open
+                       said so: creating it would empty a file that exists and merely could not be
+                       opened for writing this time. */
+                    if (errno != ENOENT)
                         HGOTO_ERROR(DFE_BADOPEN, FAIL);
-                    }
                     new_file = TRUE;
                 }
                 else
